@@ -1,7 +1,7 @@
 (* C02 - Resources are scoped to the context tree: snapshot down, nothing up or sideways.
    Only the property theorems; each closed by [exact] of a lemma proved elsewhere. *)
 From Coq Require Import String List.
-From Asphalt Require Import Ctx.ResModel Ctx.ResProofs Ctx.ResInv Ctx.ResHist.
+From Asphalt Require Import Ctx.ResModel Ctx.ResProofs Ctx.ResInv Ctx.ResHist Gen.Gen_lookup.
 Import ListNotations.
 
 (* The property itself, for every state s, every operation a addressed to a context c
@@ -76,3 +76,9 @@ Theorem C02_lookup_async_reads_table : forall x tok t name opt r,
   find (t, name) (res x) = Some r -> local_step (AGetBegin tok t name opt) x = (x, Val (cvalue r)).
 Proof. exact lookup_hit_async. Qed.
 Print Assumptions C02_lookup_async_reads_table.
+
+(* Context.__init__ as read from the source on this run (the model's `snapshot` is computed from it): a child
+   copies its parent's resources except the generated ones, and all of its factories *)
+Theorem C02_snapshot_in_source : init_skips_generated = true /\ init_copies_factories = true.
+Proof. exact init_source_shape. Qed.
+Print Assumptions C02_snapshot_in_source.
